@@ -41,7 +41,10 @@ def unchars(a):
 
 SEGS = ["..", ".", "", "a", "u", "cal", ".Radicale.props", ".Radicale.cache", ".Radicale.lock", ".Radicale.tmp-x", "item",
         "x~", "~", ".hidden", "a.ics", "é", "a b", "\\", "..\\..", "%2e%2e", "%2F", "..%2f", "a\\b", "decoy", "secret.ics",
-        "collection-root", "...", "..a", ".a.", "a" * 300, "‮", "con", "a:b"]
+        "collection-root", "...", "..a", ".a.", "a" * 300, "‮", "con", "a:b",
+        # compatibility characters that NFKC / NFKD fold to ".", "/", "~" (full-width and small forms): names like any other, never dots or separators
+        "\uff0e\uff0e", "\uff0eRadicale.cache", "\uff0ehidden.ics", "a\uff0fb", "\uff0e\uff0e\uff0f\uff0e\uff0e\uff0fdecoy\uff0fsecret.ics", "x\uff5e",
+        "\ufe52\ufe52", "\u2024\u2024", "\u2215decoy", "\uff0eRadicale.cache\uff0f\uff0e\uff0e\uff0f\uff0e\uff0e\uff0f\uff0e\uff0e\uff0f\uff0e\uff0e\uff0fpwned"]
 
 
 SHELLSEGS = ["$(touch pwned)", "`touch pwned`", ";touch pwned;", "a'b", 'a"b', "a|touch pwned", "&touch pwned&", "$HOME", "*", "a>pwned",
